@@ -54,23 +54,15 @@ Section Laws.
   Lemma rnd_nonneg x : 0 <= x -> 0 <= rnd x.
   Proof. intros H. rewrite <- rnd_0. apply rnd_mono. assumption. Qed.
 
-  (* the guard under which `min + 1` does not wrap (the only int64 operation of Scale) *)
-  Definition no_wrap (mn mx : Z) : Prop := (mx <= mn -> min_int64 <= mn < max_int64)%Z.
-
-  Lemma wrap64_id z : (min_int64 <= z <= max_int64)%Z -> wrap64 z = z.
-  Proof.
-    unfold wrap64, min_int64, max_int64. intros H.
-    rewrite Z.mod_small; lia.
-  Qed.
-
-  Lemma remap_bounds mn mx v : (mn <= mx)%Z -> no_wrap mn mx -> (mn <= v <= mx)%Z ->
+  Lemma remap_bounds mn mx v : (mn <= mx)%Z -> (mn <= v <= mx)%Z ->
     fst (remap m mn mx) <= m v /\ m v <= snd (remap m mn mx).
   Proof.
-    intros Hle Hnw Hv. unfold remap. cbn [fst snd]. split.
+    intros Hle Hv. unfold remap. cbn [fst snd]. split.
     - apply Qle_trans with (m mn). apply Qfloor_le. apply m_mono. lia.
     - destruct (Z.leb_spec mx mn) as [H|H].
-      + rewrite wrap64_id by (unfold no_wrap in Hnw; specialize (Hnw H); unfold min_int64, max_int64 in *; lia).
-        apply Qle_trans with (m (mn + 1)%Z). apply m_mono. lia. apply Qle_ceiling.
+      + destruct (Z.ltb_spec mn max_int64).
+        * apply Qle_trans with (m (mn + 1)%Z). apply m_mono. lia. apply Qle_ceiling.
+        * apply Qle_trans with (m mn). apply m_mono. lia. apply Qle_ceiling.
       + apply Qle_trans with (m mx). apply m_mono. lia. apply Qle_ceiling.
   Qed.
 
@@ -89,23 +81,23 @@ Section Laws.
     - rewrite <- rnd_1. apply rnd_mono. apply Qle_shift_div_r. assumption. lra.
   Qed.
 
-  Theorem scale_unit v mn mx : no_wrap mn mx -> 0 <= scale m rnd v mn mx <= 1.
+  Theorem scale_unit v mn mx : 0 <= scale m rnd v mn mx <= 1.
   Proof.
-    intros Hnw. unfold scale.
+    unfold scale.
     destruct (Z.ltb_spec mx mn). lra.
     destruct (Z.ltb_spec v mn). lra.
     destruct (Z.ltb_spec mx v). lra.
     destruct (remap m mn mx) as [lo hi] eqn:E.
     destruct (Qeq_bool lo hi) eqn:Q. lra.
-    pose proof (remap_bounds mn mx v ltac:(lia) Hnw ltac:(lia)) as [B1 B2]. rewrite E in B1, B2. cbn in B1, B2.
+    pose proof (remap_bounds mn mx v ltac:(lia) ltac:(lia)) as [B1 B2]. rewrite E in B1, B2. cbn in B1, B2.
     apply quot_unit; try assumption. intro Heq. apply Qeq_bool_iff in Heq. congruence.
   Qed.
 
-  Theorem scale_mono v v' mn mx : no_wrap mn mx -> (v <= v')%Z ->
+  Theorem scale_mono v v' mn mx : (v <= v')%Z ->
     scale m rnd v mn mx <= scale m rnd v' mn mx.
   Proof.
-    intros Hnw Hv.
-    pose proof (scale_unit v mn mx Hnw) as U. pose proof (scale_unit v' mn mx Hnw) as U'.
+    intros Hv.
+    pose proof (scale_unit v mn mx) as U. pose proof (scale_unit v' mn mx) as U'.
     unfold scale in *.
     destruct (Z.ltb_spec mx mn). lra.
     destruct (Z.ltb_spec v mn).
@@ -116,7 +108,7 @@ Section Laws.
     destruct (Z.ltb_spec mx v'). apply U.
     destruct (remap m mn mx) as [lo hi] eqn:E.
     destruct (Qeq_bool lo hi) eqn:Q. lra.
-    pose proof (remap_bounds mn mx v ltac:(lia) Hnw ltac:(lia)) as [B1 B2]. rewrite E in B1, B2. cbn in B1, B2.
+    pose proof (remap_bounds mn mx v ltac:(lia) ltac:(lia)) as [B1 B2]. rewrite E in B1, B2. cbn in B1, B2.
     assert (Hne : ~ lo == hi) by (intro Heq; apply Qeq_bool_iff in Heq; congruence).
     assert (Hd : 0 < hi - lo).
     { destruct (Qlt_le_dec lo hi) as [L|L]. lra. exfalso. apply Hne. lra. }
@@ -240,20 +232,3 @@ Proof. repeat split; intros; try assumption; try reflexivity. Qed.
 Lemma lin_mono : forall a b, (a <= b)%Z -> inject_Z a <= inject_Z b.
 Proof. intros. rewrite <- Zle_Qle. assumption. Qed.
 
-(* the guard [no_wrap] is necessary: at min = max = MaxInt64 the range wraps to (MaxInt64,
-   MinInt64) and a log-like mapper gives a negative magnitude (recorded finding C14-scale-maxint) *)
-Definition loglike (x : Z) : Q := if (x <=? 1)%Z then 0 else inject_Z (Z.log2 x) + (1 # 2).
-Lemma loglike_mono : forall a b, (a <= b)%Z -> loglike a <= loglike b.
-Proof.
-  intros a b H. unfold loglike.
-  destruct (Z.leb_spec a 1); destruct (Z.leb_spec b 1); try lia.
-  - lra.
-  - assert (0 <= inject_Z (Z.log2 b)). { change 0 with (inject_Z 0). rewrite <- Zle_Qle. apply Z.log2_nonneg. }
-    lra.
-  - assert (inject_Z (Z.log2 a) <= inject_Z (Z.log2 b)). { rewrite <- Zle_Qle. apply Z.log2_le_mono. assumption. }
-    lra.
-Qed.
-Lemma scale_unit_wrap_refuted :
-  exists m, (forall a b, (a <= b)%Z -> m a <= m b) /\
-            scale m (fun q => q) max_int64 max_int64 max_int64 < 0.
-Proof. exists loglike. split. exact loglike_mono. vm_compute. reflexivity. Qed.
